@@ -231,6 +231,21 @@ def rule_r5(chk, p, t):
     shared(chk, p, t, rid="C11.R5")
 
 
+def rule_r6(chk, p, t):
+    # the ground site's Earth-fixed frame uses terrestrial time for precession / nutation: shared instance of C04.R7
+    from rules import C04
+
+    C04.rule_r7(chk, p, t, rid="C11.R6")
+
+
+def rule_r7(chk, p, t):
+    # the configured latitude / longitude / altitude become the captured Earth-fixed position through lla2ecef:
+    # shared instance of C04.R8
+    from rules import C04
+
+    C04.rule_r8(chk, p, t, rid="C11.R7")
+
+
 def run(chk, p, t):
     chk.explanation = (
         "Static decision of structural necessary conditions of C11: (R1) the ground dynamics' start datetime is the "
@@ -241,7 +256,7 @@ def run(chk, p, t):
         "re-derived after the year correction (shared instance of C05.R5). NOT decided: metre-level accuracy of the IAU-76 reduction, inertial velocity values."
     )
     chk.assumptions += ["timedelta(seconds=x) interprets x as seconds", "eci2ecef/ecef2eci are mutual inverses at equal instants (C04)"]
-    for fn in (rule_r1, rule_r2, rule_r3, rule_r4, rule_r5):
+    for fn in (rule_r1, rule_r2, rule_r3, rule_r4, rule_r5, rule_r6, rule_r7):
         rid = "C11.R" + fn.__name__[-1]
         if not chk.wants(rid):
             continue
